@@ -45,10 +45,16 @@ NAMES = [
     ("foot", ["1.16.2"]),
     ("contour", ["0.3.12"]),
     ("VTE", ["7200"]),
+    # names that are not plain words, and a terminal that gives no version
+    ("xterm.js", ["5.3.0"]),
+    ("st-term", ["0.9", None]),
+    ("foot", [None]),
 ]
 
 
 def version_tuple(v):
+    if v is None:
+        return None
     try:
         return tuple(map(int, v.split(".")))
     except ValueError:
@@ -80,7 +86,10 @@ def plan(tier, seed):
             kw["kitty_graphics"] = rnd.random() < 0.3  # wezterm answers the kitty query too
         elif low in ("foot", "contour"):
             kw["kitty_graphics"] = rnd.random() < 0.3
-        shard = dict(persona="other", persona_kw=kw, seed=seed, index=i, env_term_program=None if xt else rnd.choice([None, (name, version), ("Apple_Terminal", "440")]), timeout=rnd.choice([0.25, 0.4]))
+        if rnd.random() < 0.08:
+            # the protocol is known but the query is refused: a well-formed error reply
+            kw["kitty_graphics"] = rnd.choice(["EINVAL:Unsupported action: q", "ENOTSUPPORTED:graphics are switched off", "EBADF:no such channel"])
+        shard = dict(persona="other", persona_kw=kw, seed=seed, index=i, env_term_program=None if xt else rnd.choice([None, (name, version), ("Apple_Terminal", "440"), (name, None)]), timeout=rnd.choice([0.25, 0.4]))
         shards.append(shard)
     return shards
 
@@ -92,7 +101,7 @@ def expected_support(name, version, kitty_graphics):
     kitty = False
     if low == "iterm2":
         kitty = False
-    elif kitty_graphics:
+    elif kitty_graphics is True:  # an error reply is an answer, not support
         if low == "kitty":
             kitty = bool(vt and vt >= (0, 20, 0))
         elif low == "konsole":
@@ -120,7 +129,11 @@ def support_case(shard, env, res):
     if not kw["xtversion"]:
         tp = shard.get("env_term_program")
         if tp:
-            os.environ["TERM_PROGRAM"], os.environ["TERM_PROGRAM_VERSION"] = tp
+            os.environ["TERM_PROGRAM"] = tp[0]
+            if tp[1] is None:
+                os.environ.pop("TERM_PROGRAM_VERSION", None)
+            else:
+                os.environ["TERM_PROGRAM_VERSION"] = tp[1]
             name, version = tp
         else:
             name = version = None
